@@ -16,7 +16,7 @@ TABLE = {
     'C02': ('§6 C02', False, 'the same one level down: item-ID sequence of the addressed story (first story with the ID), any interleaving of paragraphs, item IDs free to repeat in other stories; composed along every history into the item table of ALL stories (C02_history)', ''),
     'C03': ('§6 C03', False, 'frame theorems: everything the message does not name (by tag and non-blank ID) is identical and keeps its relative order, at root, roCreate and story level; a blank or unknown reference names nothing; composed along histories: what no message of a history names is identical and in order at the end (C03_history)', ''),
     'C04': ('§6 C04', False, 'carried stories/items arrive deep-equal, contiguous and in message order; roStorySend arrives as pre ++ body-children(retagged) ++ post; roReplace content becomes the roCreate; carried metadata present', ''),
-    'C05': ('§6 C05', False, 'for every message of every class and shape and every running order: if the model\'s merge ends in MosMergeError/MosCompletedMergeError the tree is the tree it was given; lifted to non-strict histories', ''),
+    'C05': ('§6 C05', False, 'for every message of every class and shape and every running order: if the model\'s merge ends in MosMergeError/MosCompletedMergeError the tree is the tree it was given; lifted to non-strict histories; C05_total: for EVERY running order and EVERY message with a readable messageID, any exception at all (merge error or built-in) leaves the tree unchanged', ''),
     'C06': ('§6 C06', False, 'the model either raises MosMergeError or emits exactly one warning of the documented category per unresolvable/duplicate element, in message order, and applies every other named element', ''),
     'C07': ('§6 C07', False, 'roDelete marks completion and appends exactly one record; a completed running order refuses every message unchanged (step and history); no other class completes; completed documents classify as RunningOrder', ''),
     'C08': ('§6 C08', True, 'classification of the model depends only on the direct message-element children; total: never a built-in exception; the roElementAction table is decided by (operation, target has itemID, source has itemID)', 'expat well-formedness decisions (MosInvalidXML), independence from the warning filter, file/str/bytes equivalence: differential execution'),
